@@ -62,6 +62,9 @@ def run(ctx):
     byval(ctx, prog)
     twopass(ctx, prog)
     early_exit_programs(ctx)
+    from .. import macrolint
+    macrolint.hygiene_rule(ctx, ["array_map", "array_from_fn", "__array_map_by_val", "__array_from_fn2", "iter_collect_const", "str_from_iter"], facts.REPO)
+    ctx.floor("HYGIENE", 16)
     ctx.floor("INIT", 18)
     ctx.floor("DEP", 3)
     ctx.floor("BUILDER", 5)
